@@ -335,14 +335,36 @@ func checkWorkerLifecycle(c *Ctx, rl *ssa.Function) []*ssa.Go {
 			}
 		}
 		if st != holds {
-			pd := postDominators(rl)
-			covered := false
+			// every way from the entry to a return runs some Done (several explicit calls, one per way out,
+			// count as much as one that every path shares)
+			hasDone := map[*ssa.BasicBlock]bool{}
+			deferredAtEntry := false
 			for _, d := range done {
-				if _, isDefer := d.(*ssa.Defer); !isDefer && pd[rl.Blocks[0]][d.Block()] {
-					covered = true
+				if _, isDefer := d.(*ssa.Defer); isDefer {
+					if d.Block() == rl.Blocks[0] {
+						deferredAtEntry = true
+					}
+					continue
 				}
-				if _, isDefer := d.(*ssa.Defer); isDefer && d.Block() == rl.Blocks[0] {
-					covered = true
+				hasDone[d.Block()] = true
+			}
+			covered := true
+			if !deferredAtEntry {
+				seen := map[*ssa.BasicBlock]bool{}
+				stack := []*ssa.BasicBlock{rl.Blocks[0]}
+				for len(stack) > 0 {
+					b := stack[len(stack)-1]
+					stack = stack[:len(stack)-1]
+					if seen[b] || hasDone[b] {
+						continue
+					}
+					seen[b] = true
+					if len(b.Instrs) > 0 {
+						if _, isRet := b.Instrs[len(b.Instrs)-1].(*ssa.Return); isRet {
+							covered = false
+						}
+					}
+					stack = append(stack, b.Succs...)
 				}
 			}
 			if !covered {
